@@ -800,8 +800,29 @@ func c13StringDelims(c *Ctx) {
 				continue
 			}
 			cal := call.Call.StaticCallee()
-			if cal == nil || cal.Name() != "ScanGraphemeClusters" || !subj.Block().Dominates(b) {
+			if cal == nil || !subj.Block().Dominates(b) {
 				continue
+			}
+			// the advance: ScanGraphemeClusters itself, or a helper of the package that calls it
+			var helper *ssa.Function
+			if cal.Name() != "ScanGraphemeClusters" {
+				if fnPkg(cal) == nil || fnPkg(cal).Path() != jsonPkgPath || len(cal.Blocks) == 0 {
+					continue
+				}
+				has := false
+				for _, hb := range cal.Blocks {
+					for _, hi := range hb.Instrs {
+						if hc, ok := hi.(*ssa.Call); ok {
+							if k := hc.Call.StaticCallee(); k != nil && k.Name() == "ScanGraphemeClusters" {
+								has = true
+							}
+						}
+					}
+				}
+				if !has {
+					continue
+				}
+				helper = cal
 			}
 			n++
 			c.Sites++
@@ -814,10 +835,16 @@ func c13StringDelims(c *Ctx) {
 			}
 			// the cut set: constants searched for in blocks this arm dominates
 			cut := map[byte]bool{}
+			var scanBlocks []*ssa.BasicBlock
 			for _, b2 := range fn.Blocks {
-				if b2 != b && !b.Dominates(b2) {
-					continue
+				if b2 == b || b.Dominates(b2) {
+					scanBlocks = append(scanBlocks, b2)
 				}
+			}
+			if helper != nil {
+				scanBlocks = append(scanBlocks, helper.Blocks...)
+			}
+			for _, b2 := range scanBlocks {
 				for _, i2 := range b2.Instrs {
 					c2, ok := i2.(*ssa.Call)
 					if !ok {
